@@ -73,6 +73,12 @@ def rule_P(ctx):
     if getattr(ctx, "_own_rules", None) is None:
         ctx._own_rules = {"P1", "P2", "P3", "P4"} | set(ctx.rule_min)
     imported(ctx, C05.rule_E2_M)
+    # the order sampler pops the lists it interleaves: the lists the tree hands it must be copies (same rule object as
+    # C07.Q1), or drawing an order edits the tree and the next draw sees another tree
+    from . import C07 as _C07
+
+    if "Q1" not in ctx.rule_min:
+        imported(ctx, _C07.rule_Q1)
     ctx.rule("P1", "sampler primitives pair with counting terms: shuffle(L) <-> log(len L)!, interleave <-> multinomial / binomial, sizes from the same collections", 3)
     ctx.rule("P2", "descendants first: own data appended after the interleaving of the children's orders; all children / roots; outliers interleaved once at top level", 2)
     ctx.rule("P3", "bridge shuffle: sentinel i repeated len(lists[i]) times, shuffled by the passed generator, elements popped from the front", 2)
